@@ -97,6 +97,13 @@ RX_ALLOC = {"main": "src/randomx.cpp", "keep": ["randomx_alloc_cache", "randomx_
             "must_fire": {"try/catch -> exception flow model": 2, "recipe rewrite: allocator calls -> stand-ins": 6, "recipe rewrite: dealloc instantiations -> stand-ins": 6,
                           "exception flow: exits from try block after may-throw calls": 9}}
 
+SS_EXEC = {'main': 'src/superscalar.cpp', 'keep': ['executeSuperscalar', 'Instruction::getModShift', 'Instruction::getImm32', 'SuperscalarProgram::op_call', 'SuperscalarProgram::getSize', 'rotr', 'signExtend2sCompl'], 'opaque_classes': ['MacroOp', 'SuperscalarInstructionInfo', 'DecoderBuffer', 'Blake2Generator', 'SuperscalarInstruction', 'RegisterInfo'], 'vector_as': {'uint64_t': 'rxv_u64vec'}, 'drop_vars': ['SuperscalarInstruction::Null', 'SuperscalarInstruction_Null', '\\bslot_\\w+', 'buffer\\d', 'decodeBuffers?', '\\bNull\\b'], 'pre_rewrites': [{'name': 'reciprocal cache lookup -> vector stand-in', 'pattern': '\\(\\*reciprocals\\)\\[([^\\]]+)\\]', 'repl': 'rxv_u64vec_at(reciprocals, \\1)'}]}
+SS_EXEC["pre_rewrites"].append({"name": "in-line 64-bit product -> RXV_MUL64", "pattern": r"r\[instr\.dst\] \*= ([^;]+);", "repl": r"r[instr.dst] = RXV_MUL64(r[instr.dst], \1);"})
+SS_EXEC["must_fire"] = {"recipe rewrite: reciprocal cache lookup -> vector stand-in": 1, "recipe rewrite: in-line 64-bit product -> RXV_MUL64": 3}
+
+VM_EXECUTE = {'main': 'src/vm_interpreted.cpp', 'keep': ['InterpretedVm::execute', 'BytecodeMachine::maskRegisterExponentMantissa', 'maskRegisterExponentMantissa', 'rx_*', 'randomx_vm::getFlags'], 'flatten': {'root': 'randomx_vm', 'concrete': 'InterpretedVm', 'chain': ['randomx_vm', 'VmBase', 'BytecodeMachine', 'InterpretedVm']}, 'pre_rewrites': [{'name': 'qualified base member -> member', 'pattern': 'randomx_vm::vmFlags', 'repl': 'vmFlags'}]}
+VM_EXECUTE["must_fire"] = {"member shadowed by local (left alone)": 1}
+
 # randomx_init_cache: std::string operations -> the abstract string model of the extractor prelude
 STR_OPS = [{"name": "local std::string -> rxv_string", "pattern": r"\bstd::string (\w+);", "repl": r"rxv_string \1 = { 0, 0, 0 };"},
            {"name": "std::string::assign -> rxv_string_assign", "pattern": r"\b(\w+(?:->\w+)*)\.assign\(", "repl": r"rxv_string_assign(&\1, "},
